@@ -39,7 +39,7 @@ COMPLEX_VALUES = {'a': 1.3 + 0.4j, 'b': 0.7 - 1.1j, 'c': 0.6 + 0.9j, 'd': -1.9 +
 def gates(tier):
     return {'flat_sequences': 5000, 'flat_discriminating': 3000, 'random_derivations': 2000,
             'renderings_checked': 10000, 'invalid_strings': 2000, 'array_derivations': 300,
-            'complex_binding_cases': 1000, 'metric_suffix_cases': 100, 'literal_checks': 2500, 'tiny_literals': 300, 'grader_layer_calls': 300}
+            'complex_binding_cases': 1000, 'metric_suffix_cases': 100, 'literal_checks': 2500, 'values_after_matrix_grader_calls': 250, 'tiny_literals': 300, 'grader_layer_calls': 300}
 
 
 def lib_scope(bindings, metric):
@@ -416,6 +416,32 @@ def run_graders(ctx):
                 ctx.violation('C03:grader:verdict', 'expected ok=%s, got %r' % (want, out.value), wit)
 
 
+def run_after_matrix_graders(ctx):
+    """The value of a string does not depend on what graders did before: matrix inverses after MatrixGrader calls (incl.
+    raising ones) made with negative powers switched off."""
+    from mitxgraders import MatrixGrader, RealMatrices
+    from mitxgraders.helpers.calc import evaluator, DEFAULT_FUNCTIONS, DEFAULT_VARIABLES
+    rng = ctx.rng
+    probes = [('[[2,0],[0,4]]^-1', np.array([[0.5, 0.], [0., 0.25]])), ('[[1,2],[3,4]]^-2*[[1,2],[3,4]]^2', np.eye(2)),
+              ('2*[[2,0],[0,4]]^(0-1)', np.array([[1., 0.], [0., 0.5]])), ('[[0,1],[1,0]]^-3', np.array([[0., 1.], [1., 0.]]))]
+    for i in range(ctx.n(320, 4000)):
+        g = MatrixGrader(answers='A', variables=['A'], sample_from={'A': RealMatrices(shape=[2, 2])}, negative_powers=rng.random() < 0.3,
+                         max_array_dim=2)
+        sub = rng.choice(['A^-1*A*A', 'A+', 'zz*A', 'A', 'A^-1', '[[1,2],[2,4]]^-1*A', 'A*[1,2,3]', 'A^0.5', '1/0*A'])
+        before = lib.call(ctx, g, None, sub)
+        s_, want = rng.choice(probes)
+        out = lib.call(ctx, lambda: evaluator(s_, DEFAULT_VARIABLES, DEFAULT_FUNCTIONS, {'%': 0.01}, max_array_dim=2)[0])
+        ctx.ev()
+        ctx.count('values_after_matrix_grader_calls')
+        wit = {'string': s_, 'earlier_grader_call': {'negative_powers': g.config['negative_powers'], 'submission': sub, 'outcome': before.brief()},
+               'outcome': out.brief()}
+        ctx.nontrivial(['after_matrix', sub, s_, g.config['negative_powers']])
+        if not out.returned:
+            ctx.violation('C03:history:error_for_valid:' + type(out.exc).__name__, 'valid expression raised %r after a grader call' % (out.exc,), wit)
+        elif not np.allclose(np.asarray(out.value, dtype=complex), want, rtol=1e-9, atol=1e-12):
+            ctx.violation('C03:history:value', 'got %r, value is %r' % (out.value, want), wit)
+
+
 def run_literals(ctx):
     """Number literals on their own: mantissa forms x exponents x every suffix, judged relative to their OWN magnitude."""
     from mitxgraders.helpers.calc import evaluator, METRIC_SUFFIXES
@@ -450,6 +476,7 @@ def run_literals(ctx):
 
 def run(ctx):
     run_literals(ctx)
+    run_after_matrix_graders(ctx)
     run_flat(ctx)
     run_random(ctx)
     if ctx.inconclusive:
